@@ -107,6 +107,7 @@ class Cov:
     def __init__(self):
         self.lines = {}
         self.params = set()
+        self.src = {}
 
     def add(self, results):
         for r in results:
@@ -114,6 +115,8 @@ class Cov:
                 self.lines.setdefault(s_, set()).update(ls)
             for t in r.get('params') or ():
                 self.params.add(tuple(t))
+            for s_, sha in (r.get('cov_src') or {}).items():
+                self.src.setdefault(s_, set()).add(sha)
 
 
 def wrap(prog, inner_kind, cov):
@@ -224,7 +227,7 @@ def main(ctx):
     t0 = time.time()
     linalg_streams(ctx, rng, seen, all_hist, cov)
     ctx.cov['c02x_wall_s'] = round(time.time() - t0, 1)
-    c02_cov.evaluate(ctx, common.REPO, cov.lines, cov.params, all_hist)
+    c02_cov.evaluate(ctx, common.REPO, cov.lines, cov.params, all_hist, cov.src)
     ctx.cov['traces_validated_against_impl'] = sum(v['cases'] for v in coq_done.values()) + ctx.cov.get('lookup_model_vs_impl_cases', 0)
     ctx.cov['model_vs_impl'] = coq_done
     ctx.cov['input_distribution'] = all_hist
@@ -253,6 +256,8 @@ def main(ctx):
         'the workers, its lines cannot be recorded); unreached lines inside raise / assert statements and statement lists ending in raise are error paths (no object returned); the '
         'classified exclusions carry their reason in harness/c02_cov.EXCLUDED (HDF5: C17; functions returning strings / numbers / bools / ndarrays; dead private helpers; the '
         'LAPACK fallback of _svd_worker: C05); Array.add_charge(qtotal=None) is CALLED by the api-options stream and its raise on every input is recorded (statistic add_charge(qtotal=None):raises)',
+        'C02 coverage tables: every runner process reports the sha1 of the two source files it imported; when the tree changed while the check was running the recorded line '
+        'numbers cannot be matched against the current source: the line table of that run is written but not evaluated for holes (note in the evidence; line_coverage.source_changed_during_run)',
         'C02 api-options stream at optimization level skip_arg_checks (a sixth of the cases): the tensors\' own test_sanity() is off there, the recomputation alone decides; '
         'DipolarChargeInfo.shift_charges with a sublattice component du != 0 is the documented NotImplementedError (expected, nothing returned); change_charge is generated for '
         'new_qmod dividing the old one (or any new_qmod for U(1)) only: another modulus does not preserve the charge rule',
